@@ -238,6 +238,60 @@ def nonpass_fault_cases(tier):
                         yield (prog, cfgname, {k: "exc" if k % 2 else "assert"})
 
 
+ALL_HOOKS = ("before_all", "after_all", "before_feature", "after_feature", "before_rule", "after_rule",
+             "before_scenario", "after_scenario", "before_step", "after_step", "before_tag", "after_tag")
+
+
+def hook_subsets():
+    """what an environment file may provide: one hook only, all but one, only the before-hooks, only the after-hooks,
+    each before/after pair"""
+    out = [frozenset([h]) for h in ALL_HOOKS]
+    out += [frozenset(ALL_HOOKS) - {h} for h in ALL_HOOKS]
+    out.append(frozenset(h for h in ALL_HOOKS if h.startswith("before_")))
+    out.append(frozenset(h for h in ALL_HOOKS if h.startswith("after_")))
+    for lvl in ("feature", "rule", "scenario", "step", "tag"):
+        out.append(frozenset(["before_" + lvl, "after_" + lvl]))
+    return out
+
+
+def subset_case(case):
+    """case = (prog, cfgname, faults, subset): the environment provides only the hooks in `subset`; the trace is the
+    full trace restricted to them, a fault in a provided hook is handled as always"""
+    prog, cfgname, faults, subset = case
+    cfg = VARIATIONS[cfgname]
+    names = tuple(sorted(subset))
+    obs = harness.run_case(prog, cfg, faults=faults, hooks=names)
+    ref = refrun.predict(prog, cfg, faults=faults, hooks=names)
+    v = refrun.compare(prog, ref, obs, what=("verdict", "status", "steps", "calls", "hooks"))
+    tag = "only:" + names[0] if len(names) == 1 else "without:" + sorted(set(ALL_HOOKS) - subset)[0] \
+        if len(names) == len(ALL_HOOKS) - 1 else "+".join(n.replace("before_", "b_").replace("after_", "a_") for n in names)
+    for d, msg in v:
+        d["provided"] = tag
+        d.setdefault("fault", ",".join(ref.fault_sites))
+    if not obs["escaped"] and faults and ref.fault_sites and not obs["verdict"]:
+        v.append(({"subcheck": "verdict", "clause": "hook-fault-not-failing", "fault": ",".join(ref.fault_sites),
+                   "provided": tag}, "a hook raised but run() reports success"))
+    return {"v": v, "nt": digest(case), "out": ("subset", tag, tuple(ref.fault_sites), obs["verdict"]),
+            "dg": (obs["verdict"], obs["escaped"], obs["hooks"], sorted(obs["status"].items()), obs["calls"])}
+
+
+def subset_cases(tier):
+    quick = tier == "quick"
+    subsets = hook_subsets()
+    for si, shp in enumerate(shapes()):
+        if si % (8 if quick else 2):
+            continue
+        prog = (shp, SECOND)
+        for subset in subsets:
+            names = tuple(sorted(subset))
+            yield (prog, "default", None, subset)
+            n = len(refrun.predict(prog, VARIATIONS["default"], hooks=names).hooks)
+            for k in range(n):
+                if quick and n > 12 and k % 2:
+                    continue
+                yield (prog, "default", {k: "exc"}, subset)
+
+
 def pair_cases(tier):
     for si, shp in enumerate(shapes()):
         prog = (shp, SECOND)
@@ -261,6 +315,8 @@ def run(ctx):
               name="a hook excludes its own element at run time (skip()) at every hook invocation")
     ctx.sweep(run_case, nonpass_fault_cases(ctx.tier), chunk=32,
               name="one non-passing step, then a single hook fault at every invocation")
+    ctx.sweep(subset_case, subset_cases(ctx.tier), chunk=32,
+              name="the environment provides only a subset of the hooks (single hooks, all but one, halves, pairs)")
     if not ctx.quick:
         ctx.sweep(run_case, pair_cases(ctx.tier), chunk=64, name="pairs of hook faults")
     sites = set()
